@@ -22,10 +22,10 @@ type usedKey struct {
 // C09: MAC keys are disclosed only once retired, and then they are disclosed
 func genC09(c *Ctx) {
 	c.Rep.Rule = "sessions with random interleavings (ping-pong, one-directional streams, crossings); every emitted data message is audited: each disclosed key is compared with the receiving MAC keys of the discloser's live key pairs, recomputed independently from the DH values; every receiving key used to accept a message must be disclosed in the first data message sent after its pair retired; steps compared with the abstract machine (key counts)"
-	n := 6
+	n := 120
 	steps := 50
 	if c.Thorough() {
-		n, steps = 150, 150
+		n, steps = 800, 120
 	}
 	for i := 0; i < n; i++ {
 		pol := c.pickVersionPolicy()
